@@ -1,6 +1,7 @@
 import Bgpfu.Drive.Framing
 import Bgpfu.Drive.Xml
 import Bgpfu.Drive.Session
+import Bgpfu.Drive.Run
 import Bgpfu.Drive.Daemon
 import Bgpfu.Drive.Writers
 import Bgpfu.Drive.Policy
@@ -16,6 +17,7 @@ def dispatch (ws : List String) : String :=
     | "frame" :: rest => Framing.drive rest
     | "xml" :: rest => Xml.drive rest
     | "sess" :: rest => Session.drive rest
+    | "run" :: rest => Run.drive rest
     | "daemon" :: rest => Daemon.drive rest
     | "ser" :: rest => Writers.drive rest
     | "plan" :: rest => Policy.drive rest
